@@ -175,6 +175,11 @@ func (o totObs) key() string {
 	return fmt.Sprintf("hit=%v nf=%d status=%d body=%q params=%s", o.hit, o.nf, o.status, o.body, o.params)
 }
 
+// c07InvokeStruct has the method set of a fast invoker and is no function.
+type c07InvokeStruct struct{}
+
+func (c07InvokeStruct) Invoke([]interface{}) ([]reflect.Value, error) { return nil, nil }
+
 type totInstance struct {
 	f      *flamego.Flame
 	cons   map[int]map[string]*regexp.Regexp
@@ -284,7 +289,24 @@ func buildTot(c *totCase) *totInstance {
 	} else {
 		regAll()
 	}
-	if c.BadNF {
+	if c.BadNF && len(c.Routes)%2 == 1 {
+		// values that are no functions but have an Invoke method (a struct, a pointer to a fast invoker): refused like
+		// any other non-function. Whatever is accepted here takes part in every chain - the requests below say what
+		// becomes of that
+		ci := flamego.ContextInvoker(func(flamego.Context) {})
+		for _, call := range []func(){
+			func() {
+				ti.f.NotFound(c07InvokeStruct{}, func() (int, string) { ti.cur.nf += 100; return 418, "left-behind" })
+			},
+			func() { ti.f.Use(&ci) },
+			func() { ti.f.Use(c07InvokeStruct{}) },
+		} {
+			func() {
+				defer func() { _ = recover() }()
+				call()
+			}()
+		}
+	} else if c.BadNF {
 		func() {
 			defer func() {
 				if recover() == nil {
